@@ -30,7 +30,14 @@ keep-alives, kicks).  Oracle on the bytes the transport was given: per session k
 every datagram (except SERVER_HELLO) opens with AESGCM under the key the packet was handed over with, with its own 20
 header bytes as AAD, to exactly the plaintext the packet had at the hand-over; its header is the header the packet had
 at the hand-over (so it carries the sequence number assigned when it was built); per destination the sequence numbers
-written are pairwise distinct and increasing; no application tag in clear."""
+written are pairwise distinct and increasing; no application tag in clear.
+Sessions (f), implementation only (session_sendfail): the client's SOCKET refuses datagrams — sock.sendto raises OSError
+(ENOBUFS, ENETUNREACH, EAGAIN, EPERM; connsim.FakeSock's optional fail_next switch) for 1..4 consecutive calls at random
+moments, while the application keeps queueing between updates (all retry modes, callbacks) and acknowledgements flow.
+Whatever UdpClient.update does with the error (the unchanged tree lets it propagate: recorded, the session goes on), the
+oracle looks at every datagram the endpoint SEALED — every byte string handed to sendto, refused or not: per key no two
+of them share bytes 0..11 unless they are byte-identical, each opens under the session key with its header as AAD, no
+application tag in clear."""
 import re, struct
 from harness import lib, netsim, connsim as S
 
@@ -251,6 +258,76 @@ def session_disconnect(run, rng, n, label):
     return net, diffs, {"mtu": mtu, **cfg, **info}
 
 
+def session_sendfail(run, rng, n, label):
+    """the client's socket refuses datagrams now and then; see (f) in the module docstring"""
+    import errno
+    from cryptography.hazmat.primitives.ciphers.aead import AESGCM
+    cfg = {"loss": rng.choice([0, 0, 0.1]), "dup": 0, "reorder": 0, "tick": rng.choice([300, 525, 600, 900]),
+           "scenario": "client socket sendto raises OSError"}
+    mtu = rng.choice([1500, 1500, 512])
+    handshake = rng.random() < 0.3
+    net = Net2(run, rng, cfg, mtu=mtu, established=False, key=None) if handshake else Net2(run, rng, cfg, mtu=mtu)
+    sock = net.A.impl.sock
+    info = {"mtu": mtu, **cfg, "handshake": handshake, "refused": 0, "update_raised": 0}
+    keyids = []                      # per handed datagram: the key the client held after the update that sealed it
+    try:
+        if handshake:
+            net.A.apply(("hello", net.t, rng.randrange(2)))
+            for i in range(40):
+                net.step()
+                if net.A.impl.conn.status.value == 2 and net.B.impl.conn.status.value == 2:
+                    break
+        for i in range(n):
+            r = rng.random()
+            if r < 0.6:
+                for _ in range(rng.choice([1, 1, 2, 3])):
+                    net.send(rng.choice(["client", "client", "server"]), rng.choice([0, 1, 9, 40, 300, net.env[0], 2500]),
+                             rng.choice([0, 1, -1]), with_cb=rng.random() < 0.4)
+            if sock.fail_next == 0 and rng.random() < 0.25:
+                sock.fail_next = rng.choice([1, 1, 2, 4])
+                sock.fail_exc = OSError(*rng.choice([(errno.ENOBUFS, "No buffer space available"), (errno.ENETUNREACH, "Network is unreachable"),
+                                                     (errno.EAGAIN, "Resource temporarily unavailable"), (errno.EPERM, "Operation not permitted")]))
+                if sock.fail_exc.errno == errno.EAGAIN and rng.random() < 0.5:
+                    sock.fail_exc = BlockingIOError(errno.EAGAIN, "Resource temporarily unavailable")
+            net.step()
+            conn = net.A.impl.conn
+            kid = net.keys.id_of(conn.session_key_bytes) if conn is not None and conn.session_key_bytes else -1
+            while len(keyids) < len(sock.handed):
+                keyids.append(kid)
+        sock.fail_next = 0
+        for i in range(20):
+            net.step()
+        while len(keyids) < len(sock.handed):
+            keyids.append(keyids[-1] if keyids else -1)
+        info["refused"] = sum(1 for d, ok in sock.handed if not ok)
+        info["update_raised"] = sum(1 for x in net.raised if x[1] == "client" and x[2] == "update")
+        # ---- oracle over everything the client SEALED
+        seen = {}
+        for idx, ((d, accepted), kid) in enumerate(zip(sock.handed, keyids)):
+            run.evaluations += 1
+            case = {"session": label, "who": "client", "index": idx, "hdr": S.unpack_header(d), "accepted_by_socket": accepted,
+                    "cfg": info}
+            if TAG.search(d):
+                run.oracle_violation("app-bytes-in-clear", dict(case, datagram=d[:64]), "wire")
+            if kid < 0 or d[12] in (1, 2):
+                continue
+            try:
+                plain = AESGCM(net.keys.bytes_of(kid)).decrypt(d[:12], d[20:], d[:20])
+            except Exception:       # noqa
+                run.oracle_violation("not-sealed-under-session-key", dict(case, len=len(d)), "Packet.to_bytes")
+                continue
+            k = (kid, d[:12])
+            if k in seen and sock.handed[seen[k]][0] != d:
+                first = sock.handed[seen[k]]
+                run.oracle_violation("nonce-reuse", dict(case, nonce=d[:12], first_index=seen[k], first_accepted_by_socket=first[1],
+                                                         first_hdr=S.unpack_header(first[0]), same_plaintext=False,
+                                                         sealed_datagrams_differ=True), "_build_packet / UdpClient.update")
+            seen.setdefault(k, idx)
+    finally:
+        net.close()
+    return net, info
+
+
 def session_wrap(run, rng, builds, seq0, label):
     """constant small traffic in both directions so that every tick builds a datagram"""
     cfg = {"loss": 0.02, "dup": 0.02, "reorder": 0.05, "tick": 300, "max_delay": T // 4}
@@ -464,4 +541,22 @@ def run(run):
             run.sample({"session": label, "cfg": cfg, "emitted": [r["hdr"] for r in net.emitted["client"][:4]],
                         "sealed": n_sealed})
     run.compare("conn_run", cases, impl, mod)
+    # ---- (f) the client's socket refuses datagrams (implementation only)
+    import logging
+    logging.disable(logging.CRITICAL)
+    try:
+        for i in range(60 if th else 14):
+            net, info = session_sendfail(run, rng, 120 if th else 70, "sf%d" % i)
+            fix_keyids(net)
+            oracle_session(run, net, "sf%d" % i)            # and the usual clauses over what the socket accepted
+            run.count("sessions_sendfail")
+            run.count("datagrams_refused_by_the_socket", info["refused"])
+            run.count("updates_that_raised_oserror", info["update_raised"])
+            if info["refused"] >= 3:
+                run.nt(("sf%d" % i, info["refused"], info["update_raised"]))
+    finally:
+        logging.disable(logging.NOTSET)
     run.rules.append(RULE)
+    run.rules.append("socket failures (implementation only): sendto of the client raises OSError for 1..4 consecutive calls with probability "
+                     "0.25 per frame, the application queues 0..3 messages per frame (all retry modes); non-trivial = session with >= 3 "
+                     "refused datagrams; oracle over every datagram handed to sendto")
